@@ -673,20 +673,20 @@ def r6(db, rep):
         return
     loop = loops[0]
     body = [x for x in loop["c"] if x is not None][-1]
-    # the index: the variable stepped by the inner scans
+    # the index: the variable the outer loop compares with paddings.size(); the run start: the variable S in the
+    # measurement `existing = index - S` (however index and S got their values: inline scans or a scanning helper)
     idx = None
-    for n in facts.walk(body):
-        if n["k"] == "WhileStmt":
-            inner = [x for x in n["c"] if x is not None][-1]
-            for x in facts.walk(inner):
-                if x["k"] == "UnaryOperator" and x.get("op") == "++":
-                    idx = strip(x["c"][0]).get("var")
+    lc = [x for x in loop["c"][:-1] if x is not None]
+    for x in facts.walk(lc[-1]) if lc else []:
+        if x["k"] == "DeclRefExpr" and x.get("var") and (facts.ty(f, x) or {}).get("k") == "int" and not x.get("parm"):
+            idx = x["var"]
     start = None
     for n in facts.walk(body):
         if n["k"] == "VarDecl" and n.get("c"):
             i0 = facts.strip_all(n["c"][0])
-            if i0["k"] == "DeclRefExpr" and i0.get("var") == idx:
-                start = n["var"]
+            if i0["k"] == "BinaryOperator" and i0.get("op") == "-" and facts.strip_all(i0["c"][0]).get("var") == idx and \
+                    facts.strip_all(i0["c"][1])["k"] == "DeclRefExpr":
+                start = facts.strip_all(i0["c"][1])["var"]
     if idx is None or start is None:
         rep.analysis_broken("update_paddings: index / run-start variables not recognised")
         return
